@@ -912,8 +912,12 @@ impl FixtureDatabase {
             candidates.push(raw_name.to_string());
         }
 
-        // Search the pre-built index for matching .pth stems
-        for (stem, pth_path) in pth_index {
+        // Search the pre-built index for matching .pth stems, in stem order: the index is a
+        // HashMap, and with more than one matching .pth file the winner must not depend on
+        // its iteration order
+        let mut entries: Vec<(&String, &PathBuf)> = pth_index.iter().collect();
+        entries.sort();
+        for (stem, pth_path) in entries {
             let matches = candidates.iter().any(|c| {
                 stem == c
                     || stem.strip_prefix(c).is_some_and(|rest| {
